@@ -50,6 +50,22 @@ func VerifC26fees() {
 	v.Observe("prop", c26big(p))
 }
 
+// VerifC26feesFixed: the same conservation statement for a list of concrete allocation pairs
+// (default 10/1 among them) and an arbitrary fee amount: with constant allocations every
+// division in the split is by a constant, so the solver decides variants of the split that the
+// fully symbolic harness can only answer "unknown" to.
+func VerifC26feesFixed() {
+	pairs := [][2]int64{{10, 1}, {1, 10}, {50, 50}, {100, 0}, {0, 100}, {33, 33}, {7, 3}}
+	pr := pairs[v.Choice(len(pairs))]
+	v.Param(string(types.KeyDAOAllocation), pr[0])
+	v.Param(string(types.KeyProposerAllocation), pr[1])
+	k, ctx := verifEnvC26()
+	fees := sdk.NewIntFromBigInt(v.BigIn("0", c26max))
+	d, p := k.splitFeesCollected(ctx, fees)
+	v.Assert(d.Add(p).Equal(fees), "fees-conserved-for-fixed-allocations")
+	v.Assert(!d.IsNegative() && !p.IsNegative(), "cuts-nonneg-for-fixed-allocations")
+}
+
 var c26addrs = []sdk.Address{
 	sdk.Address([]byte("delegator-address-01")),
 	sdk.Address([]byte("delegator-address-02")),
